@@ -10,7 +10,9 @@
 //	conn = pre "/" "d"<dst> "/" "s"<server> "/" csuites "/" ssuites "/" fault
 //	pre  = "-" | act { "+" act }
 //	act  = "j"<k>      k Puts of unrelated fresh sessions under fresh keys (evictions)
-//	     | "fg"        Put(dst, a forged session whose identifier no server ever issued)
+//	     | "fg"        Put(dst, a forged session whose identifier no server ever issued, carrying the
+//	                   (public) certificates of the server this connection reaches)
+//	     | "fn"        the same without any recorded certificates
 //	     | "st"<d>     Put(dst, copy of the session the client holds for destination d, unless wiped) (stale id)
 //	     | "sl"        the server's cache is lost (replaced by an empty one)
 //	suites = hex ids joined by "."   (Config.CipherSuites)
@@ -26,6 +28,7 @@ import (
 	"sync"
 
 	"verifharness/internal/hx"
+	"verifharness/internal/pki"
 )
 
 // ---------------------------------------------------------------------------
@@ -213,9 +216,13 @@ type Ops[S comparable] struct {
 	Wiped   func(S) bool
 	Info    func(S) (id, ms []byte)
 	Make    func(id []byte, suite uint16, ms []byte) S
+	// MakePeer is Make plus the recorded certificates of server identity `server`.
+	MakePeer func(id []byte, suite uint16, ms []byte, server int) S
 	Clone   func(S) S
 	// Handshake runs one real connection; ccache/scache may be nil (no cache configured).
-	Handshake func(dst string, server int, cs, ss []uint16, ccache, scache Cache[S], fault string, seed uint64) HS
+	// DstKey is the remote-address string of destination d (the client's cache key).
+	DstKey    func(d int) string
+	Handshake func(dst int, server int, cs, ss []uint16, ccache, scache Cache[S], fault string, seed uint64) HS
 	// Identity maps a peer certificate to "A" (server 0), "B" (server 1) or "?".
 	Identity func(der []byte) string
 }
@@ -272,8 +279,6 @@ func NewRunner[S comparable](ops Ops[S], ccap, scap int, seed uint64) *Runner[S]
 	return r
 }
 
-func DstName(d int) string { return fmt.Sprintf("dst%d:443", d) }
-
 func (r *Runner[S]) name(m map[string]string, prefix string, b []byte) string {
 	if len(b) == 0 {
 		return "-"
@@ -321,7 +326,7 @@ func why(e error) string {
 // Step runs the pre-actions and the connection number i.
 func (r *Runner[S]) Step(i int, c Conn) Out {
 	r.Client.Cur = i
-	dst := DstName(c.Dst)
+	dst := r.ops.DstKey(c.Dst)
 	suite0 := uint16(0xe053)
 	if len(c.CS) > 0 {
 		suite0 = c.CS[0]
@@ -335,12 +340,14 @@ func (r *Runner[S]) Step(i int, c Conn) Out {
 				r.Client.Put(fmt.Sprintf("junk%d", r.junk), r.ops.Make(r.rnd.Bytes(32), suite0, r.rnd.Bytes(48)))
 			}
 		case a == "fg":
+			r.Client.Put(dst, r.ops.MakePeer(r.rnd.Bytes(32), suite0, r.rnd.Bytes(48), c.Server))
+		case a == "fn":
 			r.Client.Put(dst, r.ops.Make(r.rnd.Bytes(32), suite0, r.rnd.Bytes(48)))
 		case strings.HasPrefix(a, "st"):
 			d, _ := strconv.Atoi(a[2:])
 			var zero S
 			// (a session whose master secret is already wiped is not worth copying)
-			if s, ok := r.Client.Get(DstName(d)); ok && s != zero && !r.ops.Wiped(s) {
+			if s, ok := r.Client.Get(r.ops.DstKey(d)); ok && s != zero && !r.ops.Wiped(s) {
 				r.Client.Put(dst, r.ops.Clone(s))
 			}
 		case a == "sl":
@@ -350,7 +357,7 @@ func (r *Runner[S]) Step(i int, c Conn) Out {
 		}
 	}
 	logStart := len(r.Client.Log)
-	h := r.ops.Handshake(dst, c.Server, c.CS, c.SS, r.Client, r.srv[c.Server], c.Fault, r.rnd.U64())
+	h := r.ops.Handshake(c.Dst, c.Server, c.CS, c.SS, r.Client, r.srv[c.Server], c.Fault, r.rnd.U64())
 	o := Out{COk: h.CErr == nil, SOk: h.SErr == nil, CRes: "-", SRes: "-", Len: "-", Suite: "-", Peer: "-", MS: "-", Fresh: "-"}
 	o.Off = r.name(r.ids, "n", h.Off)
 	if h.SawServerHello {
@@ -396,7 +403,7 @@ func (r *Runner[S]) Step(i int, c Conn) Out {
 		res, ok := ctlMemo[key]
 		ctlMu.Unlock()
 		if !ok {
-			ctl := r.ops.Handshake(dst, c.Server, c.CS, c.SS, nil, nil, "ok", r.rnd.U64())
+			ctl := r.ops.Handshake(c.Dst, c.Server, c.CS, c.SS, nil, nil, "ok", r.rnd.U64())
 			if ctl.CErr == nil && ctl.SErr == nil {
 				res = fmt.Sprintf("ok:%04x", ctl.Suite)
 			} else {
@@ -510,6 +517,15 @@ func (r *Runner[S]) HSResults() string {
 
 // ---------------------------------------------------------------------------
 // wire helpers shared by the stacks
+
+// ServerCerts returns the DER certificates (signature, encryption) of server identity i.
+func ServerCerts(i int) [][]byte {
+	s := pki.Std()
+	if i == 1 {
+		return [][]byte{s.Srv2Sig.DER, s.Srv2Enc.DER}
+	}
+	return [][]byte{s.SrvSig.DER, s.SrvEnc.DER}
+}
 
 // helloSessionID extracts the session id of a ClientHello/ServerHello body that starts at
 // body (version(2) random(32) sid_len(1) sid).
